@@ -157,6 +157,7 @@ type World struct {
 	Ctors         map[int]any
 	InstEnt       map[int]*Entry
 	Anomaly       []string
+	inPreBuild    atomic.Bool
 
 	// HoldArgs (C14): instances keep what they were constructed with alive, the
 	// ledger keeps no strong reference to built-in arguments.
@@ -390,7 +391,7 @@ func (w *World) Service(r *Reg) any {
 		w.mu.Lock()
 		w.InstEnt[r.ID] = e
 		w.mu.Unlock()
-		svc = obj.Interface()
+		svc = wrapOut(r.Outs[0].T, obj, obj.Type()).Interface()
 	} else if r.Kind != KindMakeFunc {
 		svc = w.staticCtor(r)
 	} else {
@@ -429,11 +430,23 @@ func (w *World) decodeArg(d DepSpec, v reflect.Value) ArgRec {
 		if (x.Kind() == reflect.Pointer || x.Kind() == reflect.Interface) && x.IsNil() {
 			return nil
 		}
-		if s, ok := x.Interface().(Svc); ok {
+		if s := svcOf(x.Interface()); s != nil {
 			return s.Ent()
 		}
 		a.Foreign = true
 		return nil
+	}
+	if d.Group == "" && IsSliceSvc(d.T) {
+		// a slice-typed service: one element, the carrier
+		if !v.IsNil() {
+			if s := svcOf(v.Interface()); s != nil {
+				a.Present = true
+				a.Entries = []*Entry{s.Ent()}
+			} else {
+				a.Foreign = true
+			}
+		}
+		return a
 	}
 	if d.Group != "" {
 		a.Present = !v.IsNil()
@@ -499,7 +512,7 @@ func (w *World) invoke(r *Reg, ft reflect.Type, args []reflect.Value) []reflect.
 			}
 			e, obj := w.newEntry(r, i, o.implFor(inv), inv)
 			inv.Outs = append(inv.Outs, e)
-			res[i] = obj.Convert(ft.Out(i))
+			res[i] = wrapOut(o.T, obj, ft.Out(i))
 		}
 	case FormOut:
 		st := reflect.New(ft.Out(0)).Elem()
@@ -510,7 +523,7 @@ func (w *World) invoke(r *Reg, ft reflect.Type, args []reflect.Value) []reflect.
 			}
 			e, obj := w.newEntry(r, i, o.implFor(inv), inv)
 			inv.Outs = append(inv.Outs, e)
-			st.Field(i + 1).Set(obj.Convert(st.Field(i + 1).Type()))
+			st.Field(i + 1).Set(wrapOut(o.T, obj, st.Field(i+1).Type()))
 		}
 		res[0] = st
 	}
@@ -711,15 +724,91 @@ func (w *World) RegisterAll(c godi.Collection, order []int) error {
 			order[i] = i
 		}
 	}
+	type liveGhost struct {
+		g    Ghost
+		left int
+	}
+	var ghosts []liveGhost
+	removeGhost := func(g Ghost) {
+		if g.Key != "" {
+			c.RemoveKeyed(RType(g.T), g.Key)
+		} else {
+			c.Remove(RType(g.T))
+		}
+	}
 	for n, i := range order {
+		for gi, g := range w.Cfg.Ghosts {
+			if g.At == n || (n == 0 && g.At < 0) {
+				if err := w.registerGhost(c, gi, g); err != nil {
+					return fmt.Errorf("register %s: %w", g, err)
+				}
+				ghosts = append(ghosts, liveGhost{g, g.Span})
+			}
+		}
 		if n == w.Cfg.PreBuild && n > 0 {
+			w.inPreBuild.Store(true)
 			w.preBuild(c)
+			w.inPreBuild.Store(false)
 		}
 		if err := w.Register(c, &w.Cfg.Regs[i]); err != nil {
 			return fmt.Errorf("register %s: %w", w.Cfg.Regs[i].String(), err)
 		}
+		kept := ghosts[:0]
+		for _, lg := range ghosts {
+			if lg.left <= 0 {
+				removeGhost(lg.g)
+				continue
+			}
+			lg.left--
+			kept = append(kept, lg)
+		}
+		ghosts = kept
+	}
+	for _, lg := range ghosts {
+		removeGhost(lg.g)
 	}
 	return nil
+}
+
+// registerGhost registers a registration that will be removed again before
+// Build; its constructor must never run for a provider built afterwards.
+func (w *World) registerGhost(c godi.Collection, gi int, g Ghost) error {
+	rt := RType(g.T)
+	ft := reflect.FuncOf(nil, []reflect.Type{rt}, false)
+	ctor := reflect.MakeFunc(ft, func([]reflect.Value) []reflect.Value {
+		if !w.inPreBuild.Load() {
+			w.anomaly("the constructor of %s ran although the registration had been removed before Build", g)
+		}
+		if rt.Kind() == reflect.Pointer {
+			return []reflect.Value{reflect.New(rt.Elem())}
+		}
+		return []reflect.Value{reflect.Zero(rt)}
+	}).Interface()
+	var opts []godi.AddOption
+	if g.Key != "" {
+		opts = append(opts, godi.Name(g.Key))
+	}
+	switch g.Life {
+	case Singleton:
+		return c.AddSingleton(ctor, opts...)
+	case Scoped:
+		return c.AddScoped(ctor, opts...)
+	}
+	return c.AddTransient(ctor, opts...)
+}
+
+// ThrowawayCtor returns a constructor for type id t that belongs to no
+// registration of the model (collection edits after Build): running it is an anomaly.
+func (w *World) ThrowawayCtor(t int, what string) any {
+	rt := RType(t)
+	ft := reflect.FuncOf(nil, []reflect.Type{rt}, false)
+	return reflect.MakeFunc(ft, func([]reflect.Value) []reflect.Value {
+		w.anomaly("the constructor of %s ran: the provider had been built before it was registered", what)
+		if rt.Kind() == reflect.Pointer {
+			return []reflect.Value{reflect.New(rt.Elem())}
+		}
+		return []reflect.Value{reflect.Zero(rt)}
+	}).Interface()
 }
 
 // preBuild builds the collection as it stands, resolves what can be resolved
